@@ -3,6 +3,7 @@ package main
 // Symbolic encoder: go/ssa function body -> SMT definitions + obligations.
 
 import (
+	"sort"
 	"fmt"
 	"go/constant"
 	"go/token"
@@ -36,6 +37,8 @@ type iterInfo struct {
 	keySort  string
 	str      string // string being ranged
 	posGhost string
+	cntGhost string // number of iterations performed so far (maps)
+	lenStart string // length of the map when the range statement started
 }
 
 type pathStep struct {
@@ -147,6 +150,7 @@ type frame struct {
 	autoFrames map[*ssa.BasicBlock][]autoFrame
 	localTypes map[string]types.Type
 	lenient    map[string]Value
+	curPos     token.Pos // source position of the site whose clause is being evaluated
 }
 
 type namedDef struct {
@@ -154,6 +158,7 @@ type namedDef struct {
 	val    Value
 	isAddr bool
 	seq    int
+	obj    types.Object // the declared variable (nil when only the name is known)
 }
 
 type edgeArm struct {
@@ -694,8 +699,37 @@ func (e *Enc) runBlock(fr *frame, b *ssa.BasicBlock, arms []edgeArm) {
 }
 
 func (fr *frame) recordNamed(name string, blk *ssa.BasicBlock, v Value, isAddr bool) {
+	fr.recordNamedObj(name, blk, v, isAddr, nil)
+}
+
+func (fr *frame) recordNamedObj(name string, blk *ssa.BasicBlock, v Value, isAddr bool, obj types.Object) {
 	ds := fr.namedDefs[name]
-	fr.namedDefs[name] = append(ds, namedDef{blk: blk, val: v, isAddr: isAddr, seq: len(ds)})
+	fr.namedDefs[name] = append(ds, namedDef{blk: blk, val: v, isAddr: isAddr, seq: len(ds), obj: obj})
+}
+
+// visibleObject: the variable a name denotes at a source position (lexical
+// scoping: shadowed declarations and the per-clause variables of a type
+// switch are told apart).
+func (fr *frame) visibleObject(name string, pos token.Pos) types.Object {
+	if !pos.IsValid() || fr.fn.Pkg == nil {
+		return nil
+	}
+	root := fr.fn
+	for root.Parent() != nil {
+		root = root.Parent()
+	}
+	if root.Pkg == nil {
+		return nil
+	}
+	sc := root.Pkg.Pkg.Scope().Innermost(pos)
+	if sc == nil {
+		return nil
+	}
+	_, obj := sc.LookupParent(name, pos)
+	if v, ok := obj.(*types.Var); ok && !v.IsField() {
+		return v
+	}
+	return nil
 }
 
 // resolveNamed finds the definition of a source variable that is valid at
@@ -704,6 +738,74 @@ func (fr *frame) recordNamed(name string, blk *ssa.BasicBlock, v Value, isAddr b
 // name ambiguous (ok=false, ambiguous=true).
 func (fr *frame) resolveNamed(name string, c *ssa.BasicBlock) (d namedDef, ok, ambiguous bool) {
 	ds := fr.namedDefs[name]
+	if obj := fr.visibleObject(name, fr.curPos); obj != nil {
+		// keep the definitions of the variable that is in scope at the
+		// current source position (definitions known by name only are kept
+		// when their type fits)
+		var keep []namedDef
+		for _, d := range ds {
+			if d.obj == obj {
+				keep = append(keep, d)
+				continue
+			}
+			if d.obj == nil {
+				t := d.val.typ
+				if d.isAddr {
+					if pt, isPtr := t.Underlying().(*types.Pointer); isPtr {
+						t = pt.Elem()
+					}
+				}
+				if t != nil && types.Identical(t, obj.Type()) {
+					keep = append(keep, d)
+				}
+			}
+		}
+		dominating := false
+		for _, d := range keep {
+			if d.blk.Dominates(c) {
+				dominating = true
+			}
+		}
+		if !dominating {
+			keep = nil
+			// a type-switch clause variable that is not used on the way here:
+			// it denotes the switched interface value, which is what the
+			// enclosing declaration of the same name holds
+			for _, d := range ds {
+				if d.obj != nil && d.obj != obj && d.obj.Pos() < obj.Pos() {
+					if _, isIface := d.obj.Type().Underlying().(*types.Interface); isIface {
+						keep = append(keep, d)
+					}
+				}
+			}
+			var objs = map[types.Object]bool{}
+			for _, d := range keep {
+				objs[d.obj] = true
+			}
+			if len(objs) == 1 {
+				for _, d := range ds {
+					if d.obj == nil {
+						t := d.val.typ
+						if d.isAddr {
+							if pt, isPtr := t.Underlying().(*types.Pointer); isPtr {
+								t = pt.Elem()
+							}
+						}
+						for o := range objs {
+							if t != nil && types.Identical(t, o.Type()) {
+								keep = append(keep, d)
+							}
+						}
+					}
+				}
+				// restore recording order
+				sort.Slice(keep, func(i, j int) bool { return keep[i].seq < keep[j].seq })
+			} else {
+				keep = nil
+			}
+		}
+		ds = keep
+	}
 	// a variable that lives in a memory cell is read from the cell
 	for i := len(ds) - 1; i >= 0; i-- {
 		if ds[i].isAddr && ds[i].blk.Dominates(c) {
@@ -803,7 +905,7 @@ func (e *Enc) instr(fr *frame, st *State, ins ssa.Instruction) {
 	case *ssa.DebugRef:
 		if obj := x.Object(); obj != nil {
 			if _, isVar := obj.(*types.Var); isVar {
-				fr.recordNamed(obj.Name(), ins.Block(), fr.val(st, x.X), x.IsAddr)
+				fr.recordNamedObj(obj.Name(), ins.Block(), fr.val(st, x.X), x.IsAddr, obj)
 			}
 		}
 	case *ssa.BinOp:
@@ -1422,6 +1524,8 @@ func freeVarReadOnly(fv *ssa.FreeVar, depth int) bool {
 // result0..n / named results.
 func (e *Enc) returnSiteChecks(fr *frame, st *State, vals []Value, pos token.Pos) {
 	con := fr.con
+	fr.curPos = pos
+	defer func() { fr.curPos = token.NoPos }()
 	for _, c := range con.ReturnSites {
 		env := e.frameEnv(fr, st)
 		e.lenientLocals(fr, st, env)
